@@ -155,6 +155,7 @@ INJECT = [
     ("native/meta_store.rs", "src/disk_store/meta_store.rs", "verif_nat_meta_store", ("native",)),
     ("native/file_writer.rs", "src/disk_store/file_writer.rs", "verif_nat_file_writer", ("native",)),
     ("native/api_roundtrip.rs", "src/lib.rs", "verif_nat_api_roundtrip", ("native",)),
+    ("native/column.rs", "src/mem_store/column.rs", "verif_nat_column", ("native",)),
 ]
 
 
